@@ -23,6 +23,7 @@ static size_t src_cb(void *buf, size_t buf_len, void *user)
 int main(void)
 {
 	char *line = NULL; size_t cap = 0; ssize_t n;
+	setvbuf(stdout, NULL, _IOLBF, 0);   /* a line per case reaches the harness even if a later case is stopped by a sanitizer */
 	while ((n = getline(&line, &cap, stdin)) > 0) {
 		char *cmd = strtok(line, " \n"), *meth = strtok(NULL, " \n"), *hx = strtok(NULL, " \n");
 		char *dl = strtok(NULL, " \n");
